@@ -226,7 +226,10 @@ fn gen_scenario(kind: Kind, w: &mut W) -> Scenario {
                     late.push(None);
                     continue;
                 }
-                let mut calls: Vec<CallSpec> = (0..ncalls).map(|_| gen_call(t, kind == Kind::C10, true)).collect();
+                // (C08 worlds: one scripted client in three also makes streaming and deferred calls;
+                // "each call handled once, answered in order" covers those as well)
+                let streams_too = kind == Kind::C10 || t.draw(3) == 2;
+                let mut calls: Vec<CallSpec> = (0..ncalls).map(|_| gen_call(t, streams_too, true)).collect();
                 if kind == Kind::C10 && scale == 13 {
                     for cs in calls.iter_mut() {
                         if let CallSpec::Stream { flags, .. } = cs {
@@ -522,6 +525,12 @@ impl Prop for ServerProp {
             if mask != 0 {
                 w.stat("worlds_with_calls_spelled_unusually");
             }
+            // one world in four: reply streams that never make the server wait (everything,
+            // including the end, is there on the first poll)
+            if w.tape.draw(4) == 3 {
+                w.eager_all = true;
+                w.stat("worlds_whose_reply_streams_are_ready_from_the_start");
+            }
         }
         let needs_limit = sc.clients.iter().any(|c| c.faults.iter().any(|f| matches!(f, Fault::Oversize { .. })));
         // The lowered limit must stay far above every legitimate burst in this world: the reader
@@ -620,6 +629,12 @@ impl Prop for ServerProp {
         }
 
         let run = run_server_with(world, sc.suspends, reals);
+        // the stub stream noticed that it was polled again after it had reported its end
+        if let Some((c, m)) = world.borrow().fail.clone() {
+            if c.starts_with("stream/") {
+                return Err((format!("{id}/reply-stream-polled-after-its-end"), m));
+            }
+        }
 
         // ------------------------------------------------------------------ real clients' own view
         for (i, rr) in real_results.iter().enumerate() {
